@@ -171,6 +171,24 @@ func (r *Report) Unresolved(rule, what string) {
 		Key: mkKey(rule, "-", "unresolved-anchor: "+what)})
 }
 
+// failing: the report would make the check exit non-zero (violated obligation or rule below its floor).
+func (r *Report) failing() bool { return r.countFailing() > 0 }
+
+func (r *Report) countFailing() int {
+	n := 0
+	for _, o := range r.Obls {
+		if o.Verdict == Violated {
+			n++
+		}
+	}
+	for _, id := range r.ruleOrder {
+		if s := r.rules[id]; s.Instances < s.Floor {
+			n++
+		}
+	}
+	return n
+}
+
 func (r *Report) Note(format string, args ...interface{}) {
 	r.Notes = append(r.Notes, fmt.Sprintf(format, args...))
 }
